@@ -8,7 +8,7 @@ ACCESSORS = {
     'ElectronConfig_Biggs': ['comptonprofiles.c'],
 }
 
-def check(run):
+def accessors(run, only_fns=None, prefix='C01'):
     run.assumptions += [
         'allocation never fails (--no-malloc-may-fail): no property quantifies over OOM',
         'table cells are not NaN (data lemma DL2 checks this on the generated tables)',
@@ -17,10 +17,11 @@ def check(run):
     err = [run.src('xraylib-error.c'), run.src('xraylib-aux.c')]
     thunks = []
     for fn, units in ACCESSORS.items():
+        if only_fns is not None and fn not in only_fns: continue
         if run.only and not any(o in fn for o in run.only): continue
         srcs = [run.harness('c01.c')] + [run.src(u) for u in units] + err
         thunks.append(lambda fn=fn, srcs=srcs: run.cbmc(
-            'C01/acc/' + fn, srcs, 'harness_' + fn, unwind=2, backends=('cvc5s', 'z3s'),
+            prefix + '/acc/' + fn, srcs, 'harness_' + fn, unwind=2, backends=('cvc5s', 'z3s'),
             functions=[fn, 'xrl_set_error_literal', 'xrl_error_new_literal', 'xrl_error_free'],
             bounds='Z, macro: all 32-bit ints; table contents arbitrary (havocked) non-NaN',
             what='in range and cell>0 => returns the cell bit-for-bit with empty slot; otherwise 0.0 + one '
@@ -66,9 +67,8 @@ def check_b(run):
         cl.mod = mod; cl.hdr = hdr; b_lineenergy(cl)
     bcheck.run_groups(run, [('C01/B/LineEnergy', g, ())])
 
-_check_a = check
 def check(run):
-    _check_a(run)
+    accessors(run)
     check_b(run)
 
 
